@@ -255,6 +255,26 @@ pub fn run(ctx: &mut Ctx) {
             }
         }
     }
+    // prefix twins: keys of equal length sharing their first 8 / 16 / 32 / 64 characters, looked up
+    // one after the other inside one rule
+    for n in [4usize, 8, 15, 16, 17, 31, 32, 33, 64, 65] {
+        if !ctx.mine() {
+            continue;
+        }
+        let stem: String = (0..n).map(|i| char::from(b'a' + (i % 26) as u8)).collect();
+        let (k1, k2, k3) = (format!("{}1", stem), format!("{}2", stem), format!("{}3", stem));
+        let dotted = |k: &str| format!("grp.{}", k);
+        let data = json!({ k1.clone(): "one", k2.clone(): "two", "grp": { k1.clone(): "g-one", k2.clone(): "g-two" } });
+        for r in [
+            json!({"cat": [{"var": k1}, "|", {"var": k2}, "|", {"var": k3}, "|", {"var": k1}]}),
+            json!({"cat": [{"var": dotted(&k2)}, "|", {"var": dotted(&k1)}, "|", {"var": [dotted(&k3), "dflt"]}]}),
+            json!({"missing": [k1, k3, k2, dotted(&k3), dotted(&k1)]}),
+            json!({"if": [{"var": k3}, "t", {"var": k2}]}),
+        ] {
+            ctx.edge();
+            ctx.check("path:prefix-twins", &r, &data);
+        }
+    }
     // characters that other path syntaxes treat as separators or escapes (JSON pointer, JSONPath,
     // jq, URL encoding ...) are ordinary key characters here: flat member vs nested look-alike
     for c in ["/", "~", "~0", "~1", "$", "[", "]", "[0]", "*", "#", "%", "%2E", ":", "@", "'", "\"", " ", "|", ",", ";", "=", "&", "?", "!", "^", "(", ")", "{", "}", "<", ">", "+", "-", "_", "\\.", "\\\\"] {
